@@ -157,7 +157,7 @@ func Load(repo string, overlay map[string][]byte) (*Ctx, error) {
 //	Fn("poc/wallet/keystore", "(*AddrManager).exportKeystore")
 //
 // Returns nil if absent (callers report anchor-missing).
-func (c *Ctx) Fn(pkgSuffix, name string) *ssa.Function {
+func (c *Ctx) fnExact(pkgSuffix, name string) *ssa.Function {
 	p := c.SSA[repoMod+"/"+pkgSuffix]
 	if pkgSuffix == "" {
 		p = c.SSA[repoMod]
@@ -198,8 +198,10 @@ func (c *Ctx) Fn(pkgSuffix, name string) *ssa.Function {
 // (callees, package-level objects, most string literals and fields). Rules that look for constructs
 // inside the named function then look inside the absorber. Nothing is returned for a function that was
 // really removed (its calls and checks are nowhere), so the anchor stays missing for those.
+func (c *Ctx) Fn(pkgSuffix, name string) *ssa.Function { return c.FnOrAbsorber(pkgSuffix, name) }
+
 func (c *Ctx) FnOrAbsorber(pkgSuffix, name string) *ssa.Function {
-	if f := c.Fn(pkgSuffix, name); f != nil {
+	if f := c.fnExact(pkgSuffix, name); f != nil {
 		return f
 	}
 	if c.refSyms == nil {
@@ -282,7 +284,7 @@ func (c *Ctx) FnOrAbsorber(pkgSuffix, name string) *ssa.Function {
 	if best == "" {
 		return nil
 	}
-	g := c.Fn(pkgSuffix, best)
+	g := c.fnExact(pkgSuffix, best)
 	if g != nil {
 		c.noteOnce("anchor " + shortPkg(path) + "." + name + " is gone; its body is found in " + best + " (inlined or merged) — rules anchored at it look there")
 	}
